@@ -35,8 +35,18 @@ class Env:
         self.UnitDatabase.PopSingleton()
 
 
-def model_check(rep, bd, env, name, depth, slots, ops, seeds=True, timeout=3000):
-    r = common.run_tlc("MC_QAlg", "MC_QAlg.cfg", bd, consts=consts(depth, slots, ops, seeds=seeds), coverage=False, library=env.lib,
+ATOMS_U = [("length", "m"), ("length", "cm"), ("depth", "km"), ("time", "s"), ("Unknown", "<unknown>"), ("dimensionless", "-")]
+
+
+def unknown_lib(env, bd):
+    """A second unit table for the same machine: the 'Unknown' quantity type and the dimensionless unit as operands (DESIGN 12.6)."""
+    if not hasattr(env, "lib_u"):
+        env.lib_u = common.write_data_module(os.path.join(bd, "lib-u"), "QTabData", {"QTab": qtab.export(env.db, ATOMS_U)})
+    return env.lib_u
+
+
+def model_check(rep, bd, env, name, depth, slots, ops, seeds=True, timeout=3000, library=None):
+    r = common.run_tlc("MC_QAlg", "MC_QAlg.cfg", bd, consts=consts(depth, slots, ops, seeds=seeds), coverage=False, library=library or env.lib,
                        tag="mc-%d-%d-%s-%s" % (depth, slots, ops, seeds), timeout=timeout)
     rep.add_tlc(name, r, note="Depth=%d NSlots=%d Ops=%s seeds=%s" % (depth, slots, ops, seeds))
     if r.violated:
@@ -293,9 +303,9 @@ def replay(t, rep, env, stats):
                 return
 
 
-def emit_and_replay(rep, bd, env, name, depth, slots, ops, every, offset, stats, seeds=True, timeout=3000):
+def emit_and_replay(rep, bd, env, name, depth, slots, ops, every, offset, stats, seeds=True, timeout=3000, library=None):
     r = common.run_tlc("MC_QAlg", "MC_QAlg.cfg", bd, consts=consts(depth, slots, ops, "all" if every == 1 else "sample", every, offset, seeds),
-                       workers=1 if every == 1 else 8, coverage=False, library=env.lib,
+                       workers=1 if every == 1 else 8, coverage=False, library=library or env.lib,
                        tag="emit-%d-%d-%s-%s" % (depth, slots, ops, seeds), timeout=timeout)
     rep.add_tlc(name, r, note="emission Depth=%d NSlots=%d Ops=%s seeds=%s every=%d offset=%d" % (depth, slots, ops, seeds, every, offset))
     if r.violated:
@@ -349,6 +359,23 @@ def run(pid, tier, focus, text):
     except Exception:
         env.close()
         raise
+
+
+def unknown_part(rep, bd, env, focus, every, thorough=False):
+    """The same machine over a second unit table: operands of the 'Unknown' quantity type and in the dimensionless unit next to lengths and times."""
+    lib = unknown_lib(env, bd)
+    stats = new_stats()
+    model_check(rep, bd, env, "operands of the 'Unknown' quantity type and dimensionless operands: two seeds, 1 step", 1, 2, focus, library=lib)
+    emit_and_replay(rep, bd, env, "'Unknown' / dimensionless operands, two seeds, 1 step (1/%d pseudo-random sample)" % every, 1, 2, focus, 1 if thorough else every,
+                    sample_seed_u(), stats, library=lib, timeout=6000)
+    rep.count(evaluations=stats["replayed"], nontrivial=stats["replayed"], traces=stats["replayed"])
+    rep.cov["replayed_with_unknown_or_dimensionless_operands"] = stats["ops"]
+    rep.assumptions.append("second table: %r" % (ATOMS_U,))
+    return stats
+
+
+def sample_seed_u():
+    return common.sample_seed(3)
 
 
 def finish(rep, env, rule):
